@@ -50,6 +50,13 @@ Section Assoc.
       + apply name_eqb_eq in E. subst m. destruct (name_eqb n k) eqn:E2; [apply name_eqb_eq in E2; congruence | reflexivity].
       + destruct (name_eqb m k); [reflexivity | exact IH].
   Qed.
+  Lemma assoc_aremove_other (l : list (name * V)) n k : k <> n -> assoc (aremove l n) k = assoc l k.
+  Proof.
+    intros Hne. induction l as [|[m w] l IH]; simpl; [reflexivity|].
+    destruct (name_eqb m n) eqn:E.
+    - apply name_eqb_eq in E. subst m. destruct (name_eqb n k) eqn:E2; [apply name_eqb_eq in E2; congruence | exact IH].
+    - simpl. destruct (name_eqb m k); [reflexivity | exact IH].
+  Qed.
 End Assoc.
 
 Lemma name_eqb_sym a b : name_eqb a b = name_eqb b a.
@@ -119,7 +126,7 @@ Section Spec.
 
   (* ---------------------------------------------------------------- what a set can do to OTHER keys *)
   Definition on_file (n : name) (e : ev) : Prop :=
-    match e with Mkdir _ | FsyncDir _ => True | Open m | Write m _ | Fsync m | Close m => m = n end.
+    match e with Mkdir _ | FsyncDir _ => True | Open m | Write m _ | Fsync m | Close m | Unlink m => m = n end.
 
   Definition content (f : fstate) := (f_vol f, f_synced f, f_dirty f).
 
@@ -147,7 +154,7 @@ Section Spec.
 
   Lemma apply_stable st e n k : on_file n e -> k <> n -> stable k st (apply_ev jr st e).
   Proof.
-    intros Ho Hne. destruct e as [p|m|m d|m|m|p]; simpl in *; try subst m.
+    intros Ho Hne. destruct e as [p|m|m d|m|m|p|m]; simpl in *; try subst m.
     - destruct (assoc (p_dirs st) p) eqn:E; [apply stable_refl|]. split; cbn [p_files p_dirs].
       + destruct (assoc (p_files st) k); auto.
       + intros q b Hq. exists b. split; [|auto]. rewrite assoc_aset_other; [exact Hq|]. intros ->. congruence.
@@ -166,6 +173,7 @@ Section Spec.
         destruct (name_eqb (parent k) p); [split; [reflexivity | reflexivity] | auto].
       + intros q b Hq. rewrite (assoc_map_keyed (fun q => name_eqb (parent q) p) (fun _ => true)), Hq. simpl.
         destruct (name_eqb (parent q) p); eexists; split; try reflexivity; auto.
+    - apply dirs_same_stable; cbn [p_files p_dirs]; [reflexivity | apply assoc_aremove_other; exact Hne].
   Qed.
 
   Lemma run_stable n k : k <> n -> forall evs st, Forall (on_file n) evs -> stable k st (run jr st evs).
